@@ -68,6 +68,44 @@ CLAIMED = {
             "DESIGN.md §8 C18, §9", "deterministic simulation; differential check against the released v0.0.17 codec; unknown-control-packet injection"),
 }
 
+def other(engine, text, ref, tech, note, cat="exploration"):
+    return (engine, cat, text, ref, tech, note)
+
+CLAIMED["C03"] = other("stream-model",
+    "One real drpcstream.Stream (over a real drpcwire.Writer and a simulated transport) is driven through sampled histories over the full alphabet of local calls and peer packets. "
+    "Sequential histories (1-9 events) are compared event by event with an executable reference state machine written from state.dot/README/the statement: result class of each call, "
+    "packets emitted (kind, control bit, payload, error payload layout), terminated/finished/context-done signals, and HandlePacket's connection-fatal verdict. Concurrent histories "
+    "(2-3 callers + packet feeder, writes parked in a stalled transport) are checked against order-independent rules (idempotence, no send after termination, finished iff terminated and idle, "
+    "no write in flight on a finished stream at ANY step, valid frame stream, no second terminal packet, nothing blocked for ever).",
+    "DESIGN.md §8 C03", "deterministic simulation + model-based testing against a reference state machine",
+    "Trusted: the reference state machine in /verif/sim/e2_stream.go; testing/synctest; simsync; sampled histories (all histories of length <= 3 are reached with high probability in the thorough tier, not enumerated).")
+CLAIMED["C09"] = other("reader-chunk",
+    "Generated byte strings (valid packet sequences, single malformations, hostile streams incl. padded varints, streams produced by the released v0.0.17 writer) are fed to the real drpcwire.Reader under "
+    "5 different partitions into reads (everything at once, byte-wise, small, mixed) with errors attached to data or delivered alone and bursts of empty reads, plus a >=100-empty-reads no-progress probe. "
+    "Oracles: (a) differential against an independent reference reassembler, (b) metamorphic: the same bytes give the same packets and error class under every partition, (c) memory: buffer capacity and the "
+    "largest slice offered to Read stay below 4x maximum + 64 KiB. Found and repaired D4 and D12. This engine also decides clause (b) of C18 (old writer -> new reader).",
+    "DESIGN.md §8 C09", "deterministic simulation of the io.Reader seam (read partitioning and error injection) + differential/metamorphic oracles",
+    "Trusted: reference reassembler (/verif/sim/e3_reader.go, refwire.go), overlay accessor VerifBufCap; no concurrency is involved (single goroutine), the simulated seam is the io.Reader.")
+CLAIMED["C15"] = other("pool-sim",
+    "One real drpcpool.Pool with simulator-owned connections; 2-3 worker tasks Put/Take/re-Put/close/block/unblock over 1-3 keys with all capacity settings; expiry callbacks are director tasks on the fake clock, so "
+    "'expiry fired but not completed' is an ordinary schedulable state. Every step at which nobody holds the pool lock an overlay accessor walks the lists: bounds, count == length, forward == backward, per-key sum == global. "
+    "Take results are checked for ownership (cached, not handed out, not pool-closed) and state (not closed / blocked / expiry-fired before Take began); at the end (pool closed, timers drained) every Put connection was handed out or "
+    "closed by the pool exactly once. Found and repaired D5 and D11.",
+    "DESIGN.md §8 C15", "deterministic simulation with fake-clock timer callbacks as schedulable tasks; list-invariant and ownership oracles",
+    "Trusted: overlay accessor VerifState (reads private list fields; a rename breaks the build, exit 2); fake connections; synctest fake clock; sampled operation sequences and schedules.")
+CLAIMED["C16"] = other("mux-sim",
+    "Real drpcmigrate.ListenMux (prefix length 1-8, routes registered before/while running) over a simulated base listener; 2-6 dialers with registered / unregistered / too-short prefixes writing in arbitrary splits, some through "
+    "HeaderConn with 1-3 concurrent writers; acceptors per listener; route Close, context cancel and base-listener failure at scheduler-chosen instants. Oracles at quiescence: each accepted connection is returned by exactly one Accept "
+    "(its route, else default) or closed or still waiting for its prefix; routed bytes = client bytes minus prefix, default bytes unmodified; header exactly once and first on the wire with correct write counts; after stop no Accept blocks, Run returns and all goroutines exit.",
+    "DESIGN.md §8 C16", "deterministic simulation with seeded schedules over a simulated listener/connection seam; routing and transparency oracles",
+    "Trusted: simnet listener/conn honouring the net contracts (closing a listener resets un-accepted connections); deterministic map iteration patch in the private runtime copy; sampled programs and schedules.")
+CLAIMED["C19"] = other("signal-sim",
+    "drpcsignal is instrumented with a scheduling point before EVERY statement; 2-4 tasks run 1-3 operations each on a fresh Signal (Set with distinct errors incl. nil, Get, Err, IsSet, Signal()+probe, Wait) or a fresh Chan "
+    "(Make/Get/Close observers; matched Send/Recv/Full). The recorded invoke/return history (stamped with a global event sequence) is checked with porcupine against a sequential write-once register; step invariants: one channel object for all "
+    "callers, closed implies value visible, winning Set returns with the channel closed, no lost wake-up at quiescence, no panic, no task blocked for ever in matched lazy-channel scenarios.",
+    "DESIGN.md §8 C19", "deterministic simulation at statement granularity + porcupine linearizability check",
+    "Trusted: porcupine v1.3.0; sequentially consistent interleavings only (no weak-memory reorderings between plain accesses); sampled interleavings (histories are tiny: <= 12 operations).")
+
 NOT_YET = "check under construction in this round; will be claimed once its oracle has been validated on the unchanged tree"
 
 NA = {
@@ -85,7 +123,7 @@ def main():
         if pid not in CLAIMED:
             continue
         engine, cat, text, ref, tech, note = CLAIMED[pid]
-        if cat not in ("exploration", "fault_enumeration"):
+        if cat not in ("exploration", "fault_enumeration"):  # sanity
             raise SystemExit("bad category")
         checks.append({
             "property_id": pid,
